@@ -21,14 +21,25 @@ def generate(rng, tier):
     def plain(kind, x):
         return {"x": x, "kind": kind, "style": "exact", "s_true": [1.0 + 0.3 * (-1) ** j for j in range(len(x))], "dy": [0.01] * len(x),
                 "Qmin": None, "Qmax": None, "Y": None, "X": None}
+    def plain_done(d, mat):
+        return SL.finish_dataset(dict(d), mat)
     d_a = plain(2, [0.3, 0.4, 0.5, 0.6])
     d_b = plain(3, [0.3, 0.45, 0.6, 0.75])
     d_b["set_before"] = {"btot": 8.5}
+    d_b["forward_cfg"] = True      # the caller passes the settings it built the instance with along as keywords (they are not add_dataset's business)
     SL.finish_dataset(d_a, cfg0["mat"])
     SL.finish_dataset(d_b, dict(cfg0["mat"], btot=8.5))
     cases.append({"cfg": cfg0, "datasets": [d_a, d_b],
                   "desc": {"n_datasets": 2, "edge_on_shifted_point": False, "attrs_changed_between": True, "global_qmin": False,
                            "global_qmax": False, "any_xoffset": False, "kinds": "23"}})
+    # fixed: a dead bin (NaN sample) in a dataset of each kind: it is stored as it is, and so is its S(Q) conversion
+    for kind in range(4):
+        d_n = plain(kind, [0.2, 0.3, 0.4, 0.5, 0.6])
+        SL.finish_dataset(d_n, cfg0["mat"])
+        d_n["y"][2] = float("nan")
+        cases.append({"cfg": cfg0, "datasets": [plain_done(d_a, cfg0["mat"]), d_n],
+                      "desc": {"n_datasets": 2, "edge_on_shifted_point": False, "attrs_changed_between": False, "global_qmin": False,
+                               "global_qmax": False, "any_xoffset": False, "kinds": "2%d" % kind, "nan_sample": True}})
     for i in range(n):
         cfg = SL.gen_config(rng)
         k = rng.choice([1, 2, 3, rng.randint(1, 5)])
@@ -63,6 +74,7 @@ def generate(rng, tier):
             d0["Y"] = {"Scale": 1.5 + 0.25 * (i % 3), "Offset": 0.1 * (1 + i % 2)}
             d0["X"] = {"Offset": [0.1, -0.2, 0.3][i % 3]}
             d0["by_call"] = [[("Y", "Scale")], [("Y", "Offset"), ("X", "Offset")], [("Y", "Scale"), ("Y", "Offset"), ("X", "Offset")], [("X", "Offset")]][(i // 7) % 4]
+            d0["by_call_noblock"] = (i // 7) % 4 == 2      # all three by keyword and no "Y" / "X" block in the description
         if i % 5 == 2:             # an entry with a misspelt function name is rejected just before one of the datasets is added
             rng.choice(ds)["rejected_before"] = rng.choice(["F(Q)", "S(q)", "DCS", "FK(Q) "])
         if i % 4 == 2 and k > 1:   # the scattering lengths are changed between datasets
@@ -73,6 +85,7 @@ def generate(rng, tier):
             for d in ds:
                 cur.update(d.get("set_before") or {})
                 SL.finish_dataset(d, cur)
+                d["forward_cfg"] = bool(d.get("set_before"))
         if i % 4 == 0 and i > 0:   # the datasets arrive through read_dataset (a text file each, default or named column order)
             for j, d in enumerate(ds):
                 if d.get("reuse_info_of") is None and not d.get("rejected_before") and all(v == v and abs(v) != float("inf") for v in d["y"]):
@@ -151,6 +164,11 @@ def oracle(pystog, case, res):
                 s = np.where(pos_, SL.L.to_base(0, d["kind"], xq_, new_r[1], m_), 1.0)
                 ds = np.where(pos_, new_r[2] * SL.L.deriv(0, d["kind"], 0, xq_, m_), 0.0)
         with np.errstate(all="ignore"):
+            if (np.isnan(new_r[1]) != np.isnan(y)).any():
+                return "dataset %d: stored row has NaN where y*scale + offset has none (or the reverse)" % i
+            if (np.isnan(new_s[1]) != np.isnan(s)).any():
+                return "dataset %d: S(Q) row is not the conversion of the stored %s row (an undefined sample is stored as %r)" % (
+                    i, SL.KINDS[d["kind"]], [float(v) for v in new_s[1][np.isnan(new_s[1]) != np.isnan(s)]][:2])
             if (np.abs(new_r[1] - y) > 1e-9 * (1 + np.abs(y))).any() or (np.abs(new_r[2] - e) > 1e-9 * (1e-300 + np.abs(e))).any():
                 return "dataset %d: stored row is not (y*scale + offset, dy*scale)" % i
             sc = 1 + np.abs(s) + np.abs(y) / np.where(x > 0, x, 1.0)
